@@ -16,9 +16,21 @@
 (***************************************************************************)
 EXTENDS FileFmt, TraceCommon
 
-VARIABLES l, cur, ld
+(* The spec is written as a monitor: an event that is not explained does    *)
+(* not block the trace, it is counted in nbad and printed (MISMATCH /       *)
+(* EXPECTED, through TraceCommon!Explain), so that one TLC run reports      *)
+(* every unexplained event of a long trace.  A trace is accepted iff every  *)
+(* line was consumed (POSTCONDITION Accepted) and nothing was printed; the  *)
+(* runner (families/vfiles.py) enforces the second half and re-validates    *)
+(* the offending episodes alone before reporting them.                      *)
+VARIABLES l, cur, ld, nbad
 
-tvars == <<l, cur, ld>>
+tvars == <<l, cur, ld, nbad>>
+
+Chk(c, msg) == IF c THEN 0 ELSE IF Explain(c, msg) THEN 1 ELSE 1
+
+RECURSIVE SumChecks(_)
+SumChecks(s) == IF s = <<>> THEN 0 ELSE Head(s) + SumChecks(Tail(s))
 
 NoCfg == [phase |-> "idle"]
 
@@ -41,15 +53,15 @@ RefusedAsUsage(o) ==
 
 Succeeded(o) == o.ok = 1 /\ NonWarn(o.cb) = {}
 
-TInit == l = 1 /\ cur = NoCfg /\ ld = NoCfg
+TInit == l = 1 /\ cur = NoCfg /\ ld = NoCfg /\ nbad = 0
 
 TReset ==
     /\ TraceLog[l].e = "Reset"
-    /\ cur' = NoCfg /\ ld' = NoCfg
+    /\ cur' = NoCfg /\ ld' = NoCfg /\ UNCHANGED nbad
 
 TSkip ==
     /\ TraceLog[l].e = "Skip"
-    /\ UNCHANGED <<cur, ld>>
+    /\ UNCHANGED <<cur, ld, nbad>>
 
 (* vnadata_set_format with a list of specifiers: every documented list is  *)
 (* accepted; dB on a non-power parameter is not in the manual's table and   *)
@@ -58,9 +70,11 @@ TSetFormat ==
     LET ev == TraceLog[l]
         fm == FmtsOf(ev.fmts)
     IN /\ ev.e = "SetFormat"
-       /\ Explain((\A k \in 1..Len(fm) : Documented(fm[k])) => Succeeded(ev),
-                  <<l, "SetFormat", "ok", TRUE>>)
-       /\ Explain(ev.ok = 0 => RefusedAsUsage(ev), <<l, "SetFormat", "err", "EINVAL">>)
+       /\ nbad' = nbad + SumChecks(<<
+            Chk((\A k \in 1..Len(fm) : Documented(fm[k])) => Succeeded(ev),
+                  <<l, "SetFormat", "ok", TRUE>>),
+            Chk(ev.ok = 0 => RefusedAsUsage(ev), <<l, "SetFormat", "err", "EINVAL">>)
+          >>)
        /\ UNCHANGED <<cur, ld>>
 
 TSave3 ==
@@ -68,27 +82,29 @@ TSave3 ==
         c  == CfgOf(ev)
         v  == SaveVerdict(c)
     IN /\ ev.e = "Save3"
-       /\ Explain(DimsFit(c.type, c.rows, c.cols), <<l, "Save3", "cfg", "dims">>)
-       \* the theorem: the three entry points agree
-       /\ Explain(ev.ck.ok = ev.sv.ok, <<l, "Save3", "cksaveVsSave", ev.ck.ok>>)
-       /\ Explain(ev.fs.ok = ev.sv.ok, <<l, "Save3", "fsaveVsSave", ev.sv.ok>>)
-       \* ... and with the documented rules
-       /\ Explain(v.v = "accept" => Succeeded(ev.sv), <<l, "Save3", "saveAccepts", v>>)
-       /\ Explain(v.v = "accept" => Succeeded(ev.ck), <<l, "Save3", "cksaveAccepts", v>>)
-       /\ Explain(v.v = "accept" => Succeeded(ev.fs), <<l, "Save3", "fsaveAccepts", v>>)
-       /\ Explain(v.v = "refuse" => RefusedAsUsage(ev.sv), <<l, "Save3", "saveRefuses", v>>)
-       /\ Explain(v.v = "refuse" => RefusedAsUsage(ev.ck), <<l, "Save3", "cksaveRefuses", v>>)
-       /\ Explain(v.v = "refuse" => RefusedAsUsage(ev.fs), <<l, "Save3", "fsaveRefuses", v>>)
-       \* a failure of any kind is reported as documented
-       /\ Explain(ev.sv.ok = 0 => RefusedAsUsage(ev.sv), <<l, "Save3", "saveErr", "EINVAL">>)
-       /\ Explain(ev.ck.ok = 0 => RefusedAsUsage(ev.ck), <<l, "Save3", "cksaveErr", "EINVAL">>)
-       /\ Explain(ev.fs.ok = 0 => RefusedAsUsage(ev.fs), <<l, "Save3", "fsaveErr", "EINVAL">>)
-       \* output exactly when successful; cksave never writes
-       /\ Explain(ev.ck.file = 0, <<l, "Save3", "cksaveFile", 0>>)
-       /\ Explain(ev.sv.file = ev.sv.ok, <<l, "Save3", "saveFile", ev.sv.ok>>)
-       /\ Explain(ev.fs.file = ev.fs.ok, <<l, "Save3", "fsaveFile", ev.fs.ok>>)
-       \* saving does not change the data
-       /\ Explain(ev.objSame = 1, <<l, "Save3", "objSame", 1>>)
+       /\ nbad' = nbad + SumChecks(<<
+            Chk(DimsFit(c.type, c.rows, c.cols), <<l, "Save3", "cfg", "dims">>),
+            \* the theorem of C06: the three entry points agree ...
+            Chk(ev.ck.ok = ev.sv.ok, <<l, "Save3", "cksaveVsSave", v>>),
+            Chk(ev.fs.ok = ev.sv.ok, <<l, "Save3", "fsaveVsSave", v>>),
+            \* ... and with the documented rules (SaveVerdict); a refusal is
+            \* -1 / EINVAL / exactly one USAGE report
+            Chk(v.v = "accept" => Succeeded(ev.sv), <<l, "Save3", "saveAccepts", v>>),
+            Chk(v.v = "accept" => Succeeded(ev.ck), <<l, "Save3", "cksaveAccepts", v>>),
+            Chk(v.v = "accept" => Succeeded(ev.fs), <<l, "Save3", "fsaveAccepts", v>>),
+            Chk(v.v = "refuse" => RefusedAsUsage(ev.sv), <<l, "Save3", "saveRefuses", v>>),
+            Chk(v.v = "refuse" => RefusedAsUsage(ev.ck), <<l, "Save3", "cksaveRefuses", v>>),
+            Chk(v.v = "refuse" => RefusedAsUsage(ev.fs), <<l, "Save3", "fsaveRefuses", v>>),
+            Chk(ev.sv.ok = 0 => RefusedAsUsage(ev.sv), <<l, "Save3", "saveErr", "EINVAL">>),
+            Chk(ev.ck.ok = 0 => RefusedAsUsage(ev.ck), <<l, "Save3", "cksaveErr", "EINVAL">>),
+            Chk(ev.fs.ok = 0 => RefusedAsUsage(ev.fs), <<l, "Save3", "fsaveErr", "EINVAL">>),
+            \* output exactly when successful; cksave never writes; saving
+            \* does not change the data
+            Chk(ev.ck.file = 0, <<l, "Save3", "cksaveFile", 0>>),
+            Chk(ev.sv.file = ev.sv.ok, <<l, "Save3", "saveFile", ev.sv.ok>>),
+            Chk(ev.fs.file = ev.fs.ok, <<l, "Save3", "fsaveFile", ev.fs.ok>>),
+            Chk(ev.objSame = 1, <<l, "Save3", "objSame", 1>>)
+          >>)
        /\ cur' = [phase |-> IF ev.sv.ok = 1 THEN "saved" ELSE "refused",
                   cfg |-> c, v |-> v, prec |-> ev.prec]
        /\ ld' = NoCfg
@@ -101,19 +117,21 @@ TRead ==
         must == cur.v.v = "accept"
     IN /\ ev.e = "Read"
        /\ cur.phase = "saved"
-       /\ Explain(ev.sameBytes = 1, <<l, "Read", "sameBytes", 1>>)
-       /\ Explain(must => ev.parsed = 1, <<l, "Read", "parsed", 1>>)
-       /\ Explain(must => ev.ft = cur.v.ft, <<l, "Read", "ft", cur.v.ft>>)
-       /\ Explain(must => ev.ports = c.cols, <<l, "Read", "ports", c.cols>>)
-       /\ Explain(must => ev.nf = c.nf, <<l, "Read", "nf", c.nf>>)
-       /\ Explain(must => FmtsOf(ev.params) = EffFmts(c),
-                  <<l, "Read", "params", EffFmts(c)>>)
-       /\ Explain((must /\ cur.v.ft = "npd") => ev.fields = o.fields,
-                  <<l, "Read", "fields", o.fields>>)
-       /\ Explain(must => ev.keyOK = 1, <<l, "Read", "keyOK", 1>>)
-       /\ Explain(must => ev.freqOK = 1, <<l, "Read", "freqOK", 1>>)
-       /\ Explain(must => ev.z0OK = 1, <<l, "Read", "z0OK", 1>>)
-       /\ Explain(must => ev.valsOK = 1, <<l, "Read", "valsOK", 1>>)
+       /\ nbad' = nbad + SumChecks(<<
+            Chk(ev.sameBytes = 1, <<l, "Read", "sameBytes", 1>>),
+            Chk(must => ev.parsed = 1, <<l, "Read", "parsed", 1>>),
+            Chk(must => ev.ft = cur.v.ft, <<l, "Read", "ft", cur.v.ft>>),
+            Chk(must => ev.ports = c.cols, <<l, "Read", "ports", c.cols>>),
+            Chk(must => ev.nf = c.nf, <<l, "Read", "nf", c.nf>>),
+            Chk(must => FmtsOf(ev.params) = EffFmts(c),
+                  <<l, "Read", "params", EffFmts(c)>>),
+            Chk((must /\ cur.v.ft = "npd") => ev.fields = o.fields,
+                  <<l, "Read", "fields", o.fields>>),
+            Chk(must => ev.keyOK = 1, <<l, "Read", "keyOK", 1>>),
+            Chk(must => ev.freqOK = 1, <<l, "Read", "freqOK", 1>>),
+            Chk(must => ev.z0OK = 1, <<l, "Read", "z0OK", 1>>),
+            Chk(must => ev.valsOK = 1, <<l, "Read", "valsOK", 1>>)
+          >>)
        /\ UNCHANGED <<cur, ld>>
 
 (* vnadata_load / vnadata_fload of the written file *)
@@ -126,21 +144,23 @@ TLoad ==
     IN /\ ev.e \in {"Load", "FLoad"}
        /\ cur.phase = "saved"
        \* every format combination the saver accepts is one the loader accepts
-       /\ Explain(must => (LoaderAccepts(SaveOutput(c)) /\ Succeeded(ev)),
-                  <<l, ev.e, "ok", TRUE>>)
-       /\ Explain((must /\ ev.ok = 1 /\ lt # {}) => ev.p.type \in lt,
-                  <<l, ev.e, "type", lt>>)
-       /\ Explain((must /\ ev.ok = 1 /\ lt # {}) =>
+       /\ nbad' = nbad + SumChecks(<<
+            Chk(must => (LoaderAccepts(SaveOutput(c)) /\ Succeeded(ev)),
+                  <<l, ev.e, "ok", TRUE>>),
+            Chk((must /\ ev.ok = 1 /\ lt # {}) => ev.p.type \in lt,
+                  <<l, ev.e, "type", lt>>),
+            Chk((must /\ ev.ok = 1 /\ lt # {}) =>
                       (ev.p.rows = dims[1] /\ ev.p.cols = dims[2]),
-                  <<l, ev.e, "dims", dims>>)
-       /\ Explain((must /\ ev.ok = 1 /\ lt # {}) => ev.p.nf = c.nf,
-                  <<l, ev.e, "nf", c.nf>>)
-       /\ Explain((must /\ ev.ok = 1) =>
+                  <<l, ev.e, "dims", dims>>),
+            Chk((must /\ ev.ok = 1 /\ lt # {}) => ev.p.nf = c.nf,
+                  <<l, ev.e, "nf", c.nf>>),
+            Chk((must /\ ev.ok = 1) =>
                       ((ev.p.fz0 = 1) <=> (c.z0c = "perfreq")),
-                  <<l, ev.e, "fz0", c.z0c>>)
-       \* a previous load sets the file type (vnadata(3))
-       /\ Explain((must /\ ev.ok = 1) => ev.ftAfter = cur.v.ft,
+                  <<l, ev.e, "fz0", c.z0c>>),
+            \* "a previous load" sets the object's file type (vnadata(3))
+            Chk((must /\ ev.ok = 1) => ev.ftAfter = cur.v.ft,
                   <<l, ev.e, "ftAfter", cur.v.ft>>)
+          >>)
        /\ ld' = [phase |-> IF ev.ok = 1 THEN "loaded" ELSE "failed",
                  which |-> ev.e, type |-> ev.p.type]
        /\ UNCHANGED cur
@@ -152,25 +172,31 @@ TLoadCmp ==
         max  == cur.prec = "MAX"
     IN /\ ev.e = "LoadCmp"
        /\ ld.phase = "loaded" /\ ev.which = ld.which
-       /\ Explain(must => ev.freqOK = 1, <<l, "LoadCmp", "freqOK", 1>>)
-       /\ Explain(must => ev.z0OK = 1, <<l, "LoadCmp", "z0OK", 1>>)
-       /\ Explain(must => ev.denotes = 1, <<l, "LoadCmp", "denotes", 1>>)
-       \* maximum precision: exact where stored directly, to rounding
-       \* where the format prescribes a normalisation
-       /\ Explain((must /\ max) => ev.exactFreq = 1, <<l, "LoadCmp", "exactFreq", 1>>)
-       /\ Explain((must /\ max) => ev.exactZ0 = 1, <<l, "LoadCmp", "exactZ0", 1>>)
-       /\ Explain((must /\ max /\ StoredDirectly(c, ld.type)) => ev.exactData = 1,
-                  <<l, "LoadCmp", "exactData", 1>>)
-       /\ Explain((must /\ max /\ Normalised(c, ld.type) /\ ld.type = c.type
+       /\ nbad' = nbad + SumChecks(<<
+            \* the loaded object is what the file denotes ...
+            Chk(must => ev.freqOK = 1, <<l, "LoadCmp", "freqOK", 1>>),
+            Chk(must => ev.z0OK = 1, <<l, "LoadCmp", "z0OK", 1>>),
+            Chk(must => ev.denotes = 1, <<l, "LoadCmp", "denotes", 1>>),
+            \* ... and at maximum precision equals the original: exactly where
+            \* the values are stored directly, to rounding where the format
+            \* prescribes a normalisation (Touchstone 1 Z, Y, H, G)
+            Chk((must /\ max) => ev.exactFreq = 1, <<l, "LoadCmp", "exactFreq", 1>>),
+            Chk((must /\ max) => ev.exactZ0 = 1, <<l, "LoadCmp", "exactZ0", 1>>),
+            Chk((must /\ max /\ StoredDirectly(c, ld.type)) => ev.exactData = 1,
+                  <<l, "LoadCmp", "exactData", 1>>),
+            Chk((must /\ max /\ Normalised(c, ld.type) /\ ld.type = c.type
                      /\ EffFmts(c)[1].f = "ri") => ev.roundedData = 1,
                   <<l, "LoadCmp", "roundedData", 1>>)
+          >>)
        /\ UNCHANGED <<cur, ld>>
 
 (* end of an episode: everything was freed *)
 TEnd ==
     LET ev == TraceLog[l]
     IN /\ ev.e = "End"
-       /\ Explain(ev.live = 0, <<l, "End", "live", 0>>)
+       /\ nbad' = nbad + SumChecks(<<
+            Chk(ev.live = 0, <<l, "End", "live", 0>>)
+          >>)
        /\ cur' = NoCfg /\ ld' = NoCfg
 
 TNext ==
